@@ -68,6 +68,12 @@ CHECKS.update({
    text='z3 proves for a symbolic date and ARBITRARY member calendars (free holiday sets and week masks; 1..3 members; none/0/1/2 settlement calendars) that a combined calendar is a business day iff every member is, a settlement day iff every settlement calendar is a business day (always if none), weekday/holiday as documented, for UnionCal, NamedCal and all CalType variants; that a calendar named by each string of the grammar (case variants, commas, one pipe, same name on both sides) equals, date for date, the explicit UnionCal of its parts built from the real tables, and that unknown parts / empty parts / more than one pipe give Err; that each per-day term of the hand-written == impls is exactly agreement on business-day and settlement status; cal_date_range enumerates consecutive days.',
    note='The 84k-day loop of == is summarised by one symbolic day (range summary checked separately on 1..5-day ranges). <=3 members. Name->table wiring is C07.'),
 })
+CHECKS.update({
+ 'C13': dict(engine='mirsym', technique='symbolic execution of the MIR of dsolve/fdsolve (generic bodies instantiated at f64, Dual, Dual2) in exact fraction arithmetic over every pivot-choice path; A x = b and its per-name derivative forms decided as polynomial identities (ring normal form by z3, SMT fallback); non-singular => non-zero pivots decided by z3 with the path conditions; native replay',
+   category='model_checking', design_ref='DESIGN.md §3.13',
+   text='For symbolic real matrices of size 1..3 (quick) / 1..4 (thorough) and tall 3x2 (4x2, 4x3) systems with least squares, on EVERY pivot path the returned x satisfies A x = b (normal equations for least squares) as an exact algebraic identity given non-zero pivots; a non-singular matrix never leads to a zero pivot (n<=3); Dual/Dual2 entries (2x2, shared variable list) satisfy A x = b in every first and second derivative, also with float A and dual b; a row-swapped system gives the same x.',
+   note='Exact arithmetic (rounding/conditioning outside). Dual entries share one variable list (layouts are C03). n<=4.'),
+})
 NA_REASON = 'no registered check in this revision yet (work in progress; planned solver-based check described in DESIGN.md §3) — not claimed'
 
 checks = []
@@ -96,7 +102,7 @@ m = {
            'add_only': True},
  'engines': [
    {'name': 'kani', 'path': '/verif/kani', 'serves_properties': ['C08', 'C11', 'C20', 'C04'], 'kind_free_text': 'Kani 0.68 / CBMC 6.11 proof harnesses over the compiled crate (path dependency on /repo), native replay binary in the same crate'},
-   {'name': 'mirsym', 'path': '/verif/mirsym', 'serves_properties': ['C01','C02','C03','C04','C05','C06','C17','C18','C19','C20'], 'kind_free_text': 'symbolic executor for rustc MIR (regenerated from /repo on every run) discharging path obligations with z3'},
+   {'name': 'mirsym', 'path': '/verif/mirsym', 'serves_properties': ['C01','C02','C03','C04','C05','C06','C13','C17','C18','C19','C20'], 'kind_free_text': 'symbolic executor for rustc MIR (regenerated from /repo on every run) discharging path obligations with z3'},
    {'name': 'tables', 'path': '/verif/tables', 'serves_properties': ['C07'], 'kind_free_text': 'SMT encoding of the static holiday tables against the published rules over a symbolic day'},
  ],
  'checks': checks,
